@@ -1,10 +1,12 @@
 (* Face/Extract.v — extraction of the executable face-layer models for the correspondence runner.
    ExtrOcamlBasic only: bool, option, unit, list, prod, sumbool, sumor -> OCaml natives; N/Z/positive/nat stay Coq datatypes. *)
 From Coq Require Import Extraction ExtrOcamlBasic.
-From Coq Require Import NArith.
-From Face Require Import GenConsts Stream.
+From Coq Require Import NArith ZArith.
+From Face Require Import GenConsts Stream Lp.
 Extraction Language OCaml.
 Extraction "face_model.ml"
   run rep_item frames_eqb mk_block split_blocksN app_frames lenN takeN dropN
   c_MaxNDNPacketSize c_recvBufSize
+  send_packet send_fields lp_encode handle_frame pkt_decode c10_send_ok single_frame_fits rs_init
+  N.compare Z.of_N
   N.add N.mul N.sub N.of_nat N.to_nat N.eqb N.ltb N.leb N.div N.modulo.
